@@ -372,7 +372,7 @@ def run_parse(pid, oracle):
         lines = [f"{d} {hx(b)}" for d, b in G.cases(seed, t)]
         diff_run(o, ctx, lines, oracle=oracle, nontrivial=nontriv, tags=tags_parse)
         # inputs kept by the coverage- and behaviour-guided generator (committed corpus + a short run on the current tree)
-        fl = fuzz_cases(o, ctx, "req", t, seed) + fuzz_cases(o, ctx, "resp", t, seed)
+        fl = fuzz_cases(o, ctx, "req", tier, seed) + fuzz_cases(o, ctx, "resp", tier, seed)
         diff_run(o, ctx, fl, oracle=oracle, nontrivial=nontriv, tags=lambda c, a: "fuzz-" + tags_parse(c, a))
         if pid == "C01":
             # very long targets: real code only
